@@ -430,7 +430,10 @@ func c05Variant(r *Rng, q string) string {
 	return out
 }
 
-var c05BoostWords = []string{"list", "files", "compress", "text", "process", "disk", "docker"}
+// words of the stock queries, and command names the NLP layer ADDS to such queries as hints (a boost on an added term changes
+// the answer although the word is not in the query text)
+var c05BoostWords = []string{"list", "files", "compress", "text", "process", "disk", "docker",
+	"tar", "zip", "gzip", "ls", "dir", "find", "grep", "ps", "rm", "mkdir", "df", "du", "netstat", "ss"}
 
 func c05SetField(r *Rng, o *database.SearchOptions, name string, nan bool) {
 	f := reflect.ValueOf(o).Elem().FieldByName(name)
